@@ -19,6 +19,11 @@ type RunOp struct {
 	// FirstGlobals (with HasFirstGlobals): an earlier Execute on the same executor used these global tags.
 	FirstGlobals    map[string][]string `json:"first_globals,omitempty"`
 	HasFirstGlobals bool                `json:"has_first_globals,omitempty"`
+	// FirstGens: the generators of the first pass (with HasFirstGlobals), if other than Gens.
+	FirstGens []proto.GenScript `json:"first_gens,omitempty"`
+	// SecondContext: another context over a scratch copy of the world is created before this run's
+	// context and executed while it is alive (two contexts in one process at the same time).
+	SecondContext bool `json:"second_context,omitempty"`
 	// RetrySameExecutor: if Execute fails, the caller calls Execute again on the same executor.
 	RetrySameExecutor bool `json:"retry_same_executor,omitempty"`
 	// GoMaxProcs of the (fresh) worker process: go/packages parses and type-checks in parallel, and
